@@ -65,6 +65,14 @@ def _is_simple(vertices):
     Bentley-Ottmann algorithm to check for intersections between the line
     segments.
     """
+    # The sweep-line code compares against absolute tolerances, so it is handed a
+    # copy of the polygon translated to the origin and scaled to unit size
+    # (simplicity does not depend on either).
+    vertices = np.asarray(vertices, dtype=np.float64)
+    vertices = vertices - np.mean(vertices, axis=0)
+    extent = np.max(np.abs(vertices))
+    if extent > 0:
+        vertices = vertices / extent
     return len(poly_point_isect.isect_polygon(vertices)) == 0
 
 
